@@ -58,9 +58,11 @@ BOUNDS = {
     'thorough': ('as quick with the 32 bit field cover widened to %d special half-words (%d distinct words) for every 32 bit decoder, '
                  'PLUS all 2^32 words for: pRepCode.from68, cRepCode.from68, cpRepCode.from68 (each against the exact reference, hence '
                  'with each other), cRepCode.to68 and cpRepCode.to68 re-encoding of every decoded word, cRepCode.from50 (signed word as '
-                 'the library unpacks it), cRepCode.from70 (unsigned word; signed word for the negative half). NOT run to 2^32 (they stay '
-                 'at the widened field cover): pRepCode.from50/from70/to68, from73, RepCode.readBytes/readRepCode, FSINGL, ISINGL, VSINGL, '
-                 'SLONG, ULONG, bytes_to_float, gen_floats.  to68 doubles: sign x every binary exponent -1074..1023 x ~1600 mantissa '
+                 'the library unpacks it), cRepCode.from70 (unsigned word; signed word for the negative half), pRepCode.from50 and '
+                 'pRepCode.from70 (signed and, for the negative half, unsigned word), RP66V1 FSINGL, ISINGL, VSINGL (each 2^20 word block '
+                 'read through one LogicalData, consumption checked) and ReadBIT.gen_floats (each block as one byte string). NOT run to '
+                 '2^32 (they stay at the widened field cover): pRepCode.to68, from73, RepCode.readBytes/readRepCode, SLONG, ULONG, '
+                 'bytes_to_float.  to68 doubles: sign x every binary exponent -1074..1023 x ~1600 mantissa '
                  'patterns (all single bits, bit pairs, low/high runs)' % (len(S_T), 2 * len(S_T) * 65536 - len(S_T) ** 2)),
 }
 RULE = ('each word / (code, byte string, tail, start index) / double pattern is enumerated once (generators produce distinct '
@@ -69,8 +71,9 @@ RULE = ('each word / (code, byte string, tail, start index) / double pattern is 
 ASSUMPTIONS = [
     'VSINGL follows RP66V1 B.6 as the standard words it, (0.5 + M) * 2**(E-128) with M = m/2**23 and the byte layout fixed by the '
     "standard's example 0C 44 00 80 = 153 (this is not the DEC F_floating scaling); S=1, E=0 is undefined and excluded",
-    'words whose standard value is not exactly a finite double (code 50 with huge exponents, IEEE infinities/NaN) are outside the value '
-    'oracle: only "raises nothing, consumes the right number of bytes" is checked',
+    'words whose standard value is above the double range (code 50 with huge exponents) or is an IEEE infinity/NaN are outside the value '
+    'oracle: only "raises nothing, consumes the right number of bytes" is checked; code 50 words whose value is below the double range '
+    'must decode to one of the two doubles that bracket the value (any rounding)',
     'content the standard does not assign a value to (non-minimal UVARI, identifier / units / ASCII bytes outside the permitted '
     'character sets, DTIME fields out of range, STATUS > 1) may be refused with an ExceptionRepCode; if it is decoded only the number '
     'of bytes consumed is compared',
@@ -683,6 +686,7 @@ def shards(tier):
         nblocks = (1 << 32) // BLOCK
         out += [{'leg': 'sweep68', 'b0': b} for b in range(0, nblocks, BLOCKS_PER_SHARD)]
         out += [{'leg': 'sweep5070', 'b0': b} for b in range(0, nblocks, BLOCKS_PER_SHARD)]
+        out += [{'leg': 'sweeppy', 'b0': b} for b in range(0, nblocks, BLOCKS_PER_SHARD)]
     return out
 
 
@@ -867,6 +871,10 @@ def run_shard(shard, tier):
         import numpy as np
         for b in range(shard['b0'], shard['b0'] + BLOCKS_PER_SHARD):
             sweep5070_block(C, np, b * BLOCK, BLOCK, res)
+    elif leg == 'sweeppy':
+        import numpy as np
+        for b in range(shard['b0'], shard['b0'] + BLOCKS_PER_SHARD):
+            sweep_py_block(C, np, b * BLOCK, BLOCK, res)
     else:
         raise ValueError(shard)
     return res
@@ -968,19 +976,17 @@ def sweep68_block(C, np, w0, n, res):
     _bulk_cases(res, w0, n, 'sweep68')
 
 
-def sweep5070_block(C, np, w0, n, res):
+def _sweep50(C, np, impl, fn, rng, form, words, w0, n, res):
+    """One block of code 50 words through one decoder (rng: the arguments, signed or unsigned words)."""
     nr = C.nr
-    words = np.arange(w0, w0 + n, dtype=np.uint32)
-    signed0 = w0 - (1 << 32) if w0 >= 1 << 31 else w0
-    srng = range(signed0, signed0 + n)
     # --- code 50, Cython, signed word as STRUCT_RC_50 unpacks it
     ref, valid = nr.lis50_array(words)
     for k in (0, n // 3, n - 1):
         d = nr.as_double(nr.lis50(w0 + k))
         if (d is not None) != bool(valid[k]) or (d is not None and d != ref[k]):
             raise AssertionError('lis50_array disagrees with lis50 at %s' % _hx(w0 + k))
-    arr, errs = _decode_block(np, C.c.from50, srng, n)
-    _report_raises(res, errs, 'LIS50', 'c', w0, 'signed')
+    arr, errs = _decode_block(np, fn, rng, n)
+    _report_raises(res, errs, 'LIS50', impl, w0, form)
     wi = words.astype(np.int64)
     e50 = (wi >> 16) & 0xFFFF
     e50 = np.where(e50 >= 0x8000, e50 - 0x10000, e50) - 15
@@ -995,9 +1001,9 @@ def sweep5070_block(C, np, w0, n, res):
         idx = np.flatnonzero(out)
         if idx.size:
             k = int(idx[0])
-            _report_class(res, {'kind': 'decode_value', 'code': 'LIS50', 'impl': 'c'}, {'leg': 'w32', 'word': w0 + k},
-                          'LIS code 50 word %s via c(%d) = %r, the standard defines a value between %r and %r; %d words of block %s in this class'
-                          % (_hx(w0 + k), srng[k], float(arr[k]), float(lo[k] * tiny), float((lo[k] + 1) * tiny), idx.size, _hx(w0)), int(idx.size))
+            _report_class(res, {'kind': 'decode_value', 'code': 'LIS50', 'impl': impl}, {'leg': 'w32', 'word': w0 + k},
+                          'LIS code 50 word %s via %s(%d) = %r, the standard defines a value between %r and %r; %d words of block %s in this class'
+                          % (_hx(w0 + k), impl, rng[k], float(arr[k]), float(lo[k] * tiny), float((lo[k] + 1) * tiny), idx.size, _hx(w0)), int(idx.size))
     mism = valid & (arr != ref) & ~np.isnan(arr)
     if mism.any():
         e = (wi >> 16) & 0xFFFF
@@ -1009,15 +1015,23 @@ def sweep5070_block(C, np, w0, n, res):
             masked = np.ldexp(m.astype(np.float64), ((e & 0x3FF) - 15).astype(np.int32))
         hi = mism & (e >= 1024) & (arr == masked) & ~f4
         other = mism & ~f4 & ~hi
-        for cls, sig in ((f4, {'kind': 'from50_negative_exponent', 'impl': 'c'}), (hi, {'kind': 'from50_exponent_masked_to_10_bits', 'impl': 'c'}),
-                         (other, {'kind': 'decode_value', 'code': 'LIS50', 'impl': 'c'})):
+        for cls, sig in ((f4, {'kind': 'from50_negative_exponent', 'impl': impl}), (hi, {'kind': 'from50_exponent_masked_to_10_bits', 'impl': impl}),
+                         (other, {'kind': 'decode_value', 'code': 'LIS50', 'impl': impl})):
             idx = np.flatnonzero(cls)
             if idx.size:
                 k = int(idx[0])
                 _report_class(res, sig, {'leg': 'w32', 'word': w0 + k},
-                              'LIS code 50 word %s via c(%d) = %r, the standard defines %r; %d words of block %s in this class'
-                              % (_hx(w0 + k), srng[k], float(arr[k]), float(ref[k]), idx.size, _hx(w0)), int(idx.size))
-    first = [float(arr[0])]
+                              'LIS code 50 word %s via %s(%d) = %r, the standard defines %r; %d words of block %s in this class'
+                              % (_hx(w0 + k), impl, rng[k], float(arr[k]), float(ref[k]), idx.size, _hx(w0)), int(idx.size))
+    return float(arr[0])
+
+
+def sweep5070_block(C, np, w0, n, res):
+    nr = C.nr
+    words = np.arange(w0, w0 + n, dtype=np.uint32)
+    signed0 = w0 - (1 << 32) if w0 >= 1 << 31 else w0
+    srng = range(signed0, signed0 + n)
+    first = [_sweep50(C, np, 'c', C.c.from50, srng, 'signed', words, w0, n, res)]
     # --- code 70, Cython, unsigned word; and the signed word for the negative half
     ref70 = nr.lis70_array(words)
     for k in (0, n // 3, n - 1):
@@ -1038,6 +1052,91 @@ def sweep5070_block(C, np, w0, n, res):
         first.append(float(arr[0]))
     res.outcomes.add(h64(('sweep5070', w0, tuple(map(repr, first)))))
     _bulk_cases(res, w0, n, 'sweep5070')
+
+
+def sweep_py_block(C, np, w0, n, res):
+    """All words of the block through the pure Python LIS decoders and the RP66V1 / BIT decoders (the latter reading the
+    block as one LogicalData / byte string, as the library does for a frame)."""
+    nr = C.nr
+    words = np.arange(w0, w0 + n, dtype=np.uint32)
+    signed0 = w0 - (1 << 32) if w0 >= 1 << 31 else w0
+    srng = range(signed0, signed0 + n)
+    first = [_sweep50(C, np, 'p', C.p.from50, srng, 'signed', words, w0, n, res)]
+    if w0 >= 1 << 31:
+        first.append(_sweep50(C, np, 'p/unsigned-word', C.p.from50, range(w0, w0 + n), 'unsigned', words, w0, n, res))
+    ref70 = nr.lis70_array(words)
+    forms = [('p/unsigned-word' if w0 >= 1 << 31 else 'p', range(w0, w0 + n), 'unsigned')]
+    if w0 >= 1 << 31:
+        forms.append(('p', srng, 'signed'))
+    for impl, rng, form in forms:
+        arr, errs = _decode_block(np, C.p.from70, rng, n)
+        _report_raises(res, errs, 'LIS70', impl, w0, form)
+        idx = np.flatnonzero((arr != ref70) & ~np.isnan(arr))
+        if idx.size:
+            k = int(idx[0])
+            _report_class(res, {'kind': 'decode_value', 'code': 'LIS70', 'impl': impl}, {'leg': 'w32', 'word': w0 + k},
+                          'LIS code 70 word %s via %s(%d) = %r, the standard defines %r; %d words of block %s'
+                          % (_hx(w0 + k), impl, rng[k], float(arr[k]), float(ref70[k]), idx.size, _hx(w0)), int(idx.size))
+        first.append(float(arr[0]))
+    blob = words.astype('>u4').tobytes()
+    ones = np.ones(n, dtype=bool)
+    refs = {'FSINGL': nr.fsingl_array(words), 'ISINGL': (nr.isingl_array(words), ones), 'VSINGL': nr.vsingl_array(words),
+            'SLONG': (words.view(np.int32).astype(np.float64), ones), 'ULONG': (words.astype(np.float64), ones)}
+    scalar = {'FSINGL': nr.fsingl, 'ISINGL': nr.isingl, 'VSINGL': nr.vsingl, 'SLONG': nr.slong, 'ULONG': nr.ulong}
+    for name in ('FSINGL', 'ISINGL', 'VSINGL'):
+        ref, valid = refs[name]
+        for k in (0, n // 3, n - 1):
+            d = nr.as_double(scalar[name](w0 + k))
+            if (d is not None and bool(valid[k]) and d != ref[k]) or (d is None and bool(valid[k])):
+                raise AssertionError('%s array reference disagrees with the scalar one at %s' % (name, _hx(w0 + k)))
+        fn = getattr(C.R, name)
+        ld = C.LogicalData(blob)
+        try:
+            arr = np.fromiter((fn(ld) for _ in range(n)), dtype=np.float64, count=n)
+            errs = {}
+            if ld.index != 4 * n:
+                _violate(res, {'kind': 'consumed', 'code': name, 'impl': 'RP66V1.' + name}, {'leg': 'w32', 'word': w0},
+                         '%s read %d times from the block at %s consumed %d bytes, the standard says %d' % (name, n, _hx(w0), ld.index, 4 * n))
+        except Exception:  # noqa - find who raised, word by word
+            arr, errs = _decode_block(np, lambda k: fn(C.LogicalData(blob[4 * k:4 * k + 4])), range(n), n)
+        _report_raises(res, errs, name, 'RP66V1.' + name, w0, 'bytes')
+        idx = np.flatnonzero(valid & (arr != ref) & ~np.isnan(arr))
+        if idx.size:
+            k = int(idx[0])
+            _report_class(res, {'kind': 'decode_value', 'code': name, 'impl': 'RP66V1.code_read'}, {'leg': 'w32', 'word': w0 + k},
+                          '%s bytes %s = %r, the standard defines %r; %d words of block %s'
+                          % (name, _hx(w0 + k), float(arr[k]), float(ref[k]), idx.size, _hx(w0)), int(idx.size))
+        first.append(float(arr[0]))
+    # BIT: the whole block as one channel of IBM singles
+    ref = refs['ISINGL'][0]
+    try:
+        arr = np.fromiter(C.BIT.gen_floats(blob), dtype=np.float64)
+    except Exception as err:  # noqa
+        arr = None
+        _violate(res, {'kind': 'decode_raise', 'code': 'BIT', 'impl': 'ReadBIT.gen_floats', 'exc': type(err).__name__}, {'leg': 'w32', 'word': w0},
+                 'gen_floats over the block at %s raised %s: %s' % (_hx(w0), type(err).__name__, err))
+    if arr is not None:
+        if arr.size != n:
+            _violate(res, {'kind': 'bit_gen_floats_count'}, {'leg': 'w32', 'word': w0}, 'gen_floats over %d words yielded %d values' % (n, arr.size))
+        else:
+            mism = arr != ref
+            if mism.any():
+                # the registered defect F16 is recognised by its exact value only: m / (2**24 - 1) scaled by the power of 16
+                wi = words.astype(np.int64)
+                mant = (wi & 0xFFFFFF).astype(np.float64) / float((1 << 24) - 1)
+                f16ref = np.ldexp(mant, (4 * (((wi >> 24) & 0x7F) - 64)).astype(np.int32))
+                f16ref = np.where((wi >> 31) & 1 == 1, -f16ref, f16ref)
+                f16 = mism & (arr == f16ref)
+                for cls, sig in ((f16, {'kind': 'bit_gen_floats_divisor_0xffffff'}), (mism & ~f16, {'kind': 'bit_gen_floats_value'})):
+                    idx = np.flatnonzero(cls)
+                    if idx.size:
+                        k = int(idx[0])
+                        _report_class(res, sig, {'leg': 'w32', 'word': w0 + k},
+                                      'gen_floats word %s = %r, IBM single value is %r; %d words of block %s in this class'
+                                      % (_hx(w0 + k), float(arr[k]), float(ref[k]), idx.size, _hx(w0)), int(idx.size))
+            first.append(float(arr[0]))
+    res.outcomes.add(h64(('sweeppy', w0, tuple(map(repr, first)))))
+    _bulk_cases(res, w0, n, 'sweeppy')
 
 
 # ----------------------------------------------------------------------------------------------------------
